@@ -227,12 +227,13 @@ class SharedObjects:
     every answer is compared with the answer of a freshly made object. A memo keyed on a lossy digest (repr, printed
     form, id) or state left behind by a failing call shows up as a difference."""
 
-    def __init__(self, ctx, rng, label, known_params=None, pure=True):
+    def __init__(self, ctx, rng, label, known_params=None, pure=True, raw=None):
         self.ctx, self.rng, self.label = ctx, rng, label
         self.objs = {}
         self.known_params = known_params    # parameter names of the pinned `__call__` (None: not probed)
         self.pure = pure                    # the answer is a function of the tree's structure and content only
         self.probed = set()
+        self.raw = raw                      # raw(obj, tree) -> the library's own result object (a tree), if it returns one
 
     @staticmethod
     def _run(call, obj, d):
@@ -257,6 +258,31 @@ class SharedObjects:
         if got != want:
             self.ctx.fail("%s answers differently when structurally identical parts of the tree are one shared object" %
                           self.label, dict(info, distinct_objects=want, shared_objects=got))
+
+    def result_edited(self, shared, make, call, d, info):
+        """the tree a call returned is the caller's: it edits it in place (every value, layout, operand order). Later
+        results of the same long-lived object must not show these edits (seeded C12-G: the `*` bounds of converted
+        ranges shared between all results)"""
+        try:
+            res = self.raw(shared, common.load_tree(d))
+        except Exception:
+            return
+        if not hasattr(res, "children"):
+            return
+        for n in list(all_nodes(res)):
+            n.head = (n.head or "") + "#"
+            n.tail = "#"
+            if type(n).__name__ in ("Word",):
+                n.value = "scribbled"
+            elif type(n).__name__.endswith("Operation"):
+                n.children = list(reversed(n.children))
+        got = self._run(call, shared, d)
+        want = self._run(call, make(), d)
+        self.ctx.count("history: earlier result edited in place")
+        if got != want:
+            self.ctx.fail("after the caller edited an earlier result in place, a long-lived %s answers differently from a "
+                          "fresh one" % self.label, dict(info, fresh=want, shared=got))
+            self.objs.clear()
 
     def edited_in_place(self, shared, make, call, d, info):
         """the caller edits a tree it already handed in (another term value, operands in another order) and hands the
@@ -301,6 +327,8 @@ class SharedObjects:
             self.structure_only(make, call, d, info)
         if self.rng.random() < 0.3:
             self.edited_in_place(shared, make, call, d, info)
+        if self.raw is not None and self.rng.random() < 0.3:
+            self.result_edited(shared, make, call, d, info)
         for what, dd in todo:
             try:
                 dd() if callable(dd) else common.load_tree(dd)
